@@ -50,6 +50,8 @@ def strategy(tier):
             )
         )
         case["params_extra"] = {"collect_path": draw(st.sampled_from([True, True, False]))}
+        if draw(st.integers(0, 3)) == 0:
+            case["params_extra"]["precision"] = "Single"  # the history clauses hold in either working precision
         return case
 
     return _s()
@@ -113,10 +115,16 @@ def _judge(case, spec, solver, out, labels0, collect, which, late):
     # first step starts from the transformed start point
     vw, cw, ow = S.weights_of(solver, spec)
     ri = RefInternal(spec, vw, cw, ow)
+    wdt = np.dtype(solver.params.dtype)  # working precision of the iterates (float32 under Precision.Single)
+
+    def FB(buf):
+        return np.frombuffer(buf, dtype=wdt)
+
     if T >= 1:
         X0, Y0 = ri.to_internal(S.x0_array(spec, case["start"]), S.y0_array(spec, case["start"]))
-        if not (np.array_equal(np.frombuffer(trials[0].x_in), X0) and np.array_equal(np.frombuffer(trials[0].y_in), Y0)):
-            return V("first-step-start", f"first step starts from x={np.frombuffer(trials[0].x_in).tolist()} y={np.frombuffer(trials[0].y_in).tolist()}, transformed start is {X0.tolist()},{Y0.tolist()}")
+        X0, Y0 = X0.astype(wdt), Y0.astype(wdt)
+        if not (np.array_equal(FB(trials[0].x_in), X0) and np.array_equal(FB(trials[0].y_in), Y0)):
+            return V("first-step-start", f"first step starts from x={FB(trials[0].x_in).tolist()} y={FB(trials[0].y_in).tolist()}, transformed start is {X0.tolist()},{Y0.tolist()}")
     adopted = adoptions(trials, out.result, solver)
     for t in range(T - 1):
         tr, nx = trials[t], trials[t + 1]
@@ -143,7 +151,7 @@ def _judge(case, spec, solver, out, labels0, collect, which, late):
         xe, ye, de = ri.to_user(last.x, last.y, last.bounds_dual)
         if not (np.array_equal(res.x, xe) and np.array_equal(res.y, ye) and np.array_equal(res.d, de)):
             return V("result-not-last-adopted", f"result x={np.asarray(res.x).tolist()} y={np.asarray(res.y).tolist()} is not the last adopted iterate {xe.tolist()} {ye.tolist()}")
-    if res.dist_factor is None or not (res.dist_factor >= 1.0 - 1e-9):
+    if res.dist_factor is None or not (res.dist_factor >= 1.0 - (1e-9 if wdt == np.float64 else 1e-4)):
         return V("dist-factor", f"dist_factor={res.dist_factor!r} < 1")
     if collect:
         path, times = res.path, res.model_times
@@ -153,11 +161,11 @@ def _judge(case, spec, solver, out, labels0, collect, which, late):
         if path.shape != (ri.N + ri.ref.m, exp_cols) or times.shape != (exp_cols,):
             return V("path-shape", f"path shape {path.shape}, model_times {times.shape}; expected {(ri.N + ri.ref.m, exp_cols)}")
         if amb == 0:
-            cols = [np.concatenate([np.frombuffer(trials[0].x_in), np.frombuffer(trials[0].y_in)])] if T else []
+            cols = [np.concatenate([FB(trials[0].x_in), FB(trials[0].y_in)])] if T else []
             dts = []
             for tr, a in zip(trials, adopted):
                 if a:
-                    cols.append(np.concatenate([np.frombuffer(tr.x_out), np.frombuffer(tr.y_out)]))
+                    cols.append(np.concatenate([FB(tr.x_out), FB(tr.y_out)]))
                     dts.append(tr.dt)
             if T == 0:
                 cols = [path[:, 0]]
